@@ -8,6 +8,9 @@ NOTE = ("Trusted: go/ssa translation (x/tools v0.29.0), the engine's SSA semanti
         "Claim is bounded: every input inside the per-harness bounds recorded in the evidence; nothing outside them. ")
 
 claimed = {
+ "C18": dict(text="Bounded model checking of the peer-message handlers' parse/validate prefixes (version, inv, getdata, headers, getheaders/getblocks locators, getblocktxn, cmpctblock) on every payload up to the "
+                  "per-handler length from an arbitrary connection status: no escaping panic, no lock of the handler's lock set held at return, work proportional to the payload.",
+             ref="6/C18", note=NOTE + "Senders, counters and deep callees (ProcessNewHeader, block store, mempool effects) are stubs with arbitrary results; listed per harness in the evidence. "),
  "C01": dict(text="Bounded model checking of the script interpreter's leaf predicates against transcriptions of Bitcoin Core's: script-number decode/encode, CastToBool, "
                   "BIP66 DER / low-S / hash-type gates, public-key encoding gates, minimal-push rule, opcode fetch, push-only, witness-program and P2SH templates, BIP112 CheckSequence; "
                   "every byte string up to the per-harness length bound, all flag subsets.",
@@ -35,7 +38,6 @@ na = {
  "C14": "not yet built in this revision (planned: DESIGN.md 6/C14)",
  "C16": "real-file I/O with a background writer; snappy resolves to assembly on amd64 (no SSA) (DESIGN.md 6/C16)",
  "C17": "maps of maps driven by callbacks from parallel UTXO workers over block histories (DESIGN.md 6/C17)",
- "C18": "not yet built in this revision (planned: DESIGN.md 6/C18)",
  "C19": "file operations and crash points of the embedded key-value store (DESIGN.md 6/C19)",
  "C20": "not yet built in this revision (planned: DESIGN.md 6/C20)",
 }
